@@ -104,7 +104,8 @@ type buildObs struct {
 // weak-node (type level only): the input is first built as a typed node of ANOTHER schema - the same tree with every
 // enum weakened to String, whose Go types are the same - and handed over with AssignNode: a typed source is data like
 // any other and must be accepted or refused exactly as the same data from a plain node
-var schemaRoutes = []string{"direct", "direct-rand", "cbor", "json", "weak-node"}
+// direct-uint: as direct, but every non-negative integer arrives as a datamodel.UintNode handed over with AssignNode
+var schemaRoutes = []string{"direct", "direct-rand", "cbor", "json", "weak-node", "direct-uint"}
 
 // feed pushes the whole input into the builder of the root type at the level, over the route.
 func feed(sc *schemaCase, lvl, route string, input core.Val, r *core.Rand) buildObs {
@@ -160,6 +161,13 @@ func feed(sc *schemaCase, lvl, route string, input core.Val, r *core.Rand) build
 			}
 		case "direct":
 			if err := core.Assemble(nb, input, nil); err != nil {
+				return err
+			}
+		case "direct-uint":
+			core.UintNodesForNonNegative = true
+			err := core.Assemble(nb, input, nil)
+			core.UintNodesForNonNegative = false
+			if err != nil {
 				return err
 			}
 		case "direct-rand":
